@@ -12,6 +12,8 @@ HASHES = ["sha1", "sha256", "blake3", "xxhash", "crc32", "crc64"]
 
 
 def gen_history(seed, tier, cache=False, nsteps=(2, 6), multi_out_p=0.25, tpl_p=0.25):
+    if subseed(seed, "directed") % 8 == 0:
+        return gen_history_dirshape(seed, cache)
     rng = Rng(seed)
     spec = rs.gen_repo(rng, n_targets=(3, 10), n_pkgs=(1, 3), dep_density=0.6, use_defs_p=0.2, max_fanin=5, env_p=0.15,
                        subdir_out_p=0.3 if cache else 0.1, dir_p=0.35 if cache else 0.15, multi_out_p=multi_out_p)
@@ -118,6 +120,104 @@ def gen_history(seed, tier, cache=False, nsteps=(2, 6), multi_out_p=0.25, tpl_p=
         if labs:
             h["first_req"] = [rng2.choice(sorted(labs))]
     return h
+
+
+def gen_history_dirshape(seed, cache):
+    """Directed history: one directory output consumed by a command and re-exported by a filegroup; each
+    step changes exactly one entry of it, going through the kinds of entry (file, nested file, empty
+    directory, relative symlink) and the kinds of change (add, rename, remove, retarget)."""
+    rng = Rng(subseed(seed, "dirshape"))
+    spec = rs.new_spec()
+    spec["config"]["hash"] = rng.choice(HASHES)
+    spec["config"]["xattrs"] = rng.chance(0.75)
+    if cache:
+        spec["config"]["cache"] = "@CACHE@"
+        spec["config"]["dircompress"] = rng.chance(0.3)
+        spec["config"]["cache_workers"] = rng.choice([0, 0, 2])
+    base = {"deps": [], "salt": "d", "dir": None, "binary": False, "env": {}, "pass_env": [], "labels": [], "fail": False, "requires": [], "provides": {}, "content": None, "named_srcs": False}
+    layout = [{"p": "f0", "c": "lit f0", "x": False}, {"p": "sub/f1", "c": "lit f1", "x": False}, {"p": "e0", "d": True}, {"p": "sub/e1", "d": True}, {"p": "ln0", "l": "f0"}]
+    spec["pkgs"]["p"] = {"files": {"s.txt": "src\n"}, "use_defs": False, "targets": [
+        dict(base, name="t0", kind="genrule", srcs=["f:s.txt"], outs=["t0_d"], dir=layout),
+        dict(base, name="t1", kind="genrule", srcs=["t://p:t0"], outs=["t1.out"]),
+        dict(base, name="t2", kind="filegroup", srcs=["t://p:t0"], outs=[]),
+        dict(base, name="t3", kind="genrule", srcs=["t://p:t2"], outs=["t3.out"]),
+    ]}
+    states = [rs.clone(spec)]
+    steps = []
+    cur = rs.clone(spec)
+    n = 0
+
+    def lay(sp):
+        return sp["pkgs"]["p"]["targets"][0]["dir"]
+
+    moves = ["rename-empty", "add-empty", "remove-empty", "rename-file", "add-nested", "remove-file", "add-link", "retarget-link", "remove-link", "revert", "rm-plz-out"]
+    for i in range(rng.rng(4, 7)):
+        m = rng.choice(moves)
+        nxt = rs.clone(cur)
+        L = lay(nxt)
+        n += 1
+        desc = None
+        empties = [e for e in L if e.get("d")]
+        files = [e for e in L if "c" in e]
+        links = [e for e in L if "l" in e]
+        if m == "rename-empty" and empties:
+            e = rng.choice(empties)
+            old = e["p"]
+            e["p"] = (os.path.dirname(old) + "/" if os.path.dirname(old) else "") + "en%d" % n
+            desc = "rename empty directory %s -> %s" % (old, e["p"])
+        elif m == "add-empty":
+            L.append({"p": rng.choice(["", "sub/", "deep/er/"]) + "ea%d" % n, "d": True})
+            desc = "add empty directory %s" % L[-1]["p"]
+        elif m == "remove-empty" and empties:
+            e = rng.choice(empties)
+            L.remove(e)
+            desc = "remove empty directory %s" % e["p"]
+        elif m == "rename-file" and files:
+            e = rng.choice(files)
+            old = e["p"]
+            e["p"] = (os.path.dirname(old) + "/" if os.path.dirname(old) else "") + "fn%d" % n
+            for o in L:
+                if o.get("l") == old:
+                    o["l"] = e["p"]
+            desc = "rename file %s -> %s" % (old, e["p"])
+        elif m == "add-nested":
+            L.append({"p": rng.choice(["sub/", "deep/er/", "sub/more/"]) + "fa%d" % n, "c": "lit added %d" % n, "x": False})
+            desc = "add file %s" % L[-1]["p"]
+        elif m == "remove-file" and len(files) > 1:
+            e = rng.choice(files)
+            L.remove(e)
+            nxt["pkgs"]["p"]["targets"][0]["dir"] = [o for o in L if o.get("l") != e["p"]]
+            desc = "remove file %s" % e["p"]
+        elif m == "add-link" and files:
+            top = [e for e in files if "/" not in e["p"]]
+            if top:
+                L.append({"p": "la%d" % n, "l": rng.choice(top)["p"]})
+                desc = "add symlink %s -> %s" % (L[-1]["p"], L[-1]["l"])
+        elif m == "retarget-link" and links:
+            top = [e for e in files if "/" not in e["p"]]
+            e = rng.choice(links)
+            others = [f["p"] for f in top if f["p"] != e["l"]]
+            if others:
+                e["l"] = rng.choice(others)
+                desc = "retarget symlink %s -> %s" % (e["p"], e["l"])
+        elif m == "remove-link" and links:
+            e = rng.choice(links)
+            L.remove(e)
+            desc = "remove symlink %s" % e["p"]
+        elif m == "revert" and len(states) > 1:
+            k = rng.intn(len(states) - 1)
+            nxt = rs.clone(states[k])
+            desc = "revert to state %d" % k
+        elif m == "rm-plz-out" and cache:
+            steps.append({"kind": "rm-plz-out", "desc": "rm -rf plz-out", "state": len(states) - 1})
+            continue
+        if not desc:
+            continue
+        cur = nxt
+        states.append(rs.clone(cur))
+        steps.append({"kind": "edit", "desc": desc, "state": len(states) - 1})
+    return {"states": states, "steps": steps, "req": rng.choice([["//p:t1", "//p:t3"], ["//p:all"], ["//p:t0"], ["//p:t3"]]), "threads": rng.choice([1, 2, 4, 8]),
+            "seed": seed, "inplace": False, "two_checkouts": bool(cache and rng.chance(0.3))}
 
 
 def restore_under_template(rng, spec, states, steps):
